@@ -89,6 +89,7 @@ extern "C" void h_debug_op() {
   CEX_arg_file = af; CEX_arg_line = al; CEX_arg_val = av;
   bool want_en[VM_NLOC]; for (int j = 0; j < VM_NLOC; j++) want_en[j] = s.en[j];
   bool want_step = stepping_before;
+  BreakPoint cb0 = vm.getCurrentBreak();
   switch (kind) {
     case 0: {
       bool ret = vm.setBreakPoint(fname(af), al, av);
@@ -104,6 +105,8 @@ extern "C" void h_debug_op() {
     case 5: { bool d = vm.isDone(); ASSERT(d == (V_AT(vm.code.code, pre.ip).op == OpCode::HALT), "C06: isDone reports HALT at the instruction pointer"); break; }
   }
   snap(vm, post);
+  { BreakPoint cb1 = vm.getCurrentBreak();
+    ASSERT(cb1.line == cb0.line && cb1.file == cb0.file, "C06: the reported current location is decided by where execution stopped: enabling, disabling, clearing or switching stepping mode does not change it"); }
   ASSERT(snap_eq(post, pre), "C05: a debugger request leaves instruction pointer, data and activations unchanged");
   ASSERT(vm.stepping_mode_enabled == want_step, "C05: only setSteppingMode changes the stepping flag");
   // code: identical except PB<->BREAK at listed sites, and there according to the updated enabled set
